@@ -85,7 +85,8 @@ Program(a) ==
     [] a = "reload" ->
          <<Acq("insert", "W"), Acq("search", "R"), Acc("MAP", "R", "Store.Add")>> \o
          Guarded(DEV_AddIteratesLabelValuesUnlocked, <<Acc("LV", "R", "Store.Add"), Acc("EXP", "R", "Store.Add")>>) \o   \* range v.LabelValues; copies oldLabel.Expiry
-         <<Acq("m", "W"), Acc("LV", "R", "Metric.GetDatum"), Rel("m", "W"),
+         \* v.GetDatum(oldLabel.Labels...): finds the datum, or re-creates a label value deleted since the range read it
+         <<Acq("m", "W"), Acc("LV", "R", "Metric.GetDatum"), Acc("LV", "W", "Metric.AppendLabelValue"), Rel("m", "W"),
            Rel("search", "R"), Acq("search", "W"), Acc("MAP", "W", "Store.Add"), Rel("search", "W"), Rel("insert", "W")>>
     [] a \in {"prom", "varz", "graphite"} ->
          <<Acq("search", "R"), Acc("MAP", "R", "Store.Range"), Acq("m", "R"), Acc("LV", "R", "Metric.EmitLabelSets"),
